@@ -19,7 +19,8 @@ BLEVELS = parser_ob.LEVELS[:-1]
 
 SHAPES = ['p x ( x )', 'p x ( x ) ( x )', 'p x . x ( x )', 'p x . x ( x ) ( x )', 'p x ( x ) . x', 'p x ( x ) . x ( x )', 'x b p x ( x ) ( x )', 'p x ( x ) b x',
           'x ( x ) ( x , x )', 'x ( x ) ( )', 'p p x ( x )', 'x . x ( x ) . x ( x )', 'x b x ( x ) . x', 'p x . x . x', 'x ( p x ( x ) . x )', 'x b x . x ( x ) b x',
-          'p x ( x ) ( x ) ( x )', 'p x ( ) . x . x', 'p x ( )', 'p x ( ) b x', 'p x . x ( )', 'p p x ( ) ( x )']
+          'p x ( x ) ( x ) ( x )', 'p x ( ) . x . x', 'p x ( )', 'p x ( ) b x', 'p x . x ( )', 'p p x ( ) ( x )',
+          '( x ) ( )', '( x ) ( x )', '( x ( x ) ) ( x , x )', '( x ( x ) ) ( )', '( x b x ) ( x )', '( p x ) ( x )', 'x b ( x ) ( )', '( x . x ) ( x ) ( )']
 
 def ref_parse(toks, lvl):
     """toks: [(text, kindname, role)]; reference: postfix (call, field) tightest, then prefix, then binary levels (left-assoc)"""
@@ -27,7 +28,9 @@ def ref_parse(toks, lvl):
     def peek(): return toks[pos[0]] if pos[0] < len(toks) else None
     def nxt(): t = toks[pos[0]]; pos[0] += 1; return t
     def postfix():
-        e = ('path', nxt()[0])
+        if peek()[1] == 'LParen':              # grouping parentheses: the AST keeps no node for them
+            nxt(); e = expr(0); assert nxt()[1] == 'RParen'
+        else: e = ('path', nxt()[0])
         while peek() is not None and peek()[1] in ('LParen', 'Dot'):
             if nxt()[1] == 'Dot': e = ('field', e, nxt()[0])
             else:
